@@ -1168,6 +1168,59 @@ func BOr(a, b *Term) *Term {
 			return r
 		}
 	}
+	if a.W <= 16 && (a.K == KBOr || b.K == KBOr || a.K == KConcat || b.K == KConcat) {
+		// flag bytes: an OR of constants and of ite(c, k1, k2) with constant arms is rebuilt bit by
+		// bit, so that the same byte assembled with another grouping of the ORs is the same term
+		if sa, ok := bitSlice(a); ok {
+			if sb, ok := bitSlice(b); ok {
+				parts := make([]*Term, a.W)
+				for i := 0; i < a.W; i++ {
+					x, y := sa[i], sb[i]
+					switch {
+					case x.K == KConst && x.Val == 1, y.K == KConst && y.Val == 0:
+						parts[a.W-1-i] = x
+					case y.K == KConst && y.Val == 1, x.K == KConst && x.Val == 0:
+						parts[a.W-1-i] = y
+					case x == y:
+						parts[a.W-1-i] = x
+					default:
+						if x.ID > y.ID {
+							x, y = y, x
+						}
+						parts[a.W-1-i] = mk(KBOr, 1, x, y)
+					}
+				}
+				return Concat(parts...)
+			}
+		}
+	}
+	if a.K == KBOr || b.K == KBOr {
+		// OR is associative and commutative: a tree of ORs is rebuilt as a left-deep chain over its
+		// leaves sorted by identity, so that (c|z)|(i|d) and ((c|z)|i)|d are one term
+		var leaves []*Term
+		var walk func(t *Term)
+		walk = func(t *Term) {
+			if t.K == KBOr {
+				walk(t.Args[0])
+				walk(t.Args[1])
+				return
+			}
+			for _, l := range leaves {
+				if l == t {
+					return
+				}
+			}
+			leaves = append(leaves, t)
+		}
+		walk(a)
+		walk(b)
+		sort.Slice(leaves, func(i, j int) bool { return leaves[i].ID < leaves[j].ID })
+		r := leaves[0]
+		for _, l := range leaves[1:] {
+			r = mk(KBOr, a.W, r, l)
+		}
+		return r
+	}
 	if a.ID > b.ID {
 		a, b = b, a
 	}
@@ -1656,4 +1709,69 @@ func (t *constTable) lookupW(idx *Term, iw int) *Term {
 		return tree
 	}
 	return Ite(Ult(idx, Const(iw, uint64(1)<<uint(t.bits))), tree, Const(t.w, t.def))
+}
+
+// bitSlice returns the bits of t (index 0 = least significant) as one-bit terms when t is built
+// only from constants, ite(c, k1, k2) with constant arms, one-bit terms, concatenations and ORs of
+// such; ok is false otherwise.
+func bitSlice(t *Term) ([]*Term, bool) {
+	if t.W > 16 {
+		return nil, false
+	}
+	out := make([]*Term, t.W)
+	switch {
+	case t.K == KConst:
+		for i := range out {
+			out[i] = Const(1, t.Val>>uint(i)&1)
+		}
+		return out, true
+	case t.W == 1:
+		out[0] = t
+		return out, true
+	case t.K == KIte && t.Args[1].K == KConst && t.Args[2].K == KConst:
+		for i := range out {
+			x, y := t.Args[1].Val>>uint(i)&1, t.Args[2].Val>>uint(i)&1
+			if x == y {
+				out[i] = Const(1, x)
+			} else {
+				out[i] = intern(&Term{K: KIte, W: 1, Args: []*Term{t.Args[0], Const(1, x), Const(1, y)}})
+			}
+		}
+		return out, true
+	case t.K == KConcat:
+		pos := t.W
+		for _, p := range t.Args {
+			ps, ok := bitSlice(p)
+			if !ok {
+				return nil, false
+			}
+			pos -= p.W
+			copy(out[pos:], ps)
+		}
+		return out, true
+	case t.K == KBOr:
+		xs, ok1 := bitSlice(t.Args[0])
+		ys, ok2 := bitSlice(t.Args[1])
+		if !ok1 || !ok2 {
+			return nil, false
+		}
+		for i := range out {
+			x, y := xs[i], ys[i]
+			switch {
+			case x.K == KConst && x.Val == 1, y.K == KConst && y.Val == 0:
+				out[i] = x
+			case y.K == KConst && y.Val == 1, x.K == KConst && x.Val == 0:
+				out[i] = y
+			case x == y:
+				out[i] = x
+			default:
+				if x.ID > y.ID {
+					x, y = y, x
+				}
+				out[i] = mk(KBOr, 1, x, y)
+			}
+		}
+		return out, true
+	}
+	return nil, false
 }
